@@ -106,6 +106,24 @@ def stack_and_keys(ctx, F):
     ctx.check("C03.M", "pop-drops-one-state-and-flips-side-before-restoring", ok, fn=fn["path"], file=fn["file"], line=fn["span"][0],
               what="pop must drop exactly one state entry and flip the side back (the arms use the restored side)",
               expected=["drop-one", "flip", "match"], found=seq)
+    # ... and what pop drops must be what push stacked: push adds one entry on every path and cannot drop it silently
+    pfn = F.fn("chess::Game::push")
+    adds = []
+    for n, anc in hir.walk(pfn["hir"]["body"]):
+        if n.get("k") == "MethodCall" and hir.strip(n["recv"]).get("k") == "Field" and hir.strip(n["recv"])["name"] == "state" \
+                and n["name"] in ("push", "push_unchecked", "try_push", "try_push_unchecked", "insert", "try_insert", "extend", "try_extend_from_slice"):
+            par = anc[-1] if anc else {}
+            # a fallible push whose result is consumed by unwrap/expect/`?` stops the program instead of losing the entry
+            consumed = par.get("k") == "MethodCall" and par["name"] in ("unwrap", "expect", "unwrap_unchecked") or \
+                (par.get("k") == "Call" and str(hir.callee_of(par) or "").endswith("Try::branch"))
+            silent = n["name"].startswith("try_") and not consumed
+            cond = [x for x in (hir.guards_of(n, pfn["hir"]["body"], hir.Sym(hir.Env(pfn["hir"], F), F)) or []) if x[0] in ("if", "arm")]
+            adds.append((n["name"], silent, bool(cond)))
+    ok = len(adds) == 1 and not adds[0][1] and not adds[0][2]
+    ctx.check("C03.M", "push-stacks-one-state-unconditionally", ok, fn=pfn["path"], file=pfn["file"], line=pfn["span"][0],
+              what="push must add exactly one entry to the per-ply state stack on every path, by an operation that cannot drop it silently "
+                   "(a `try_push` whose result is ignored loses the entry when the stack is full; the matching pop then removes an older one)",
+              expected=[("push | push_unchecked", False, False)], found=adds)
 
 
 def writers(ctx, F):
